@@ -48,9 +48,18 @@ def gen_cases(tier, seed):
         init = ["given", "given", "random", "nvecs", "indicator"][int(rng.integers(0, 5))]
         if rep == "sumtensor" and init == "nvecs":
             init = "given"
+        # overall scale of the data: everything the property states is relative to ||X||, so it must hold far from 1 as well
+        scale = [1.0, 1.0, 1.0, 1e-9, 1e4, 1e-11, 1.0, 1e-4][i % 8]
+        fam = "lowrank"
+        if i % 5 == 3 and rep in ("tensor", "sptensor"):
+            # nearly superdiagonal data: the fitted factor columns are nearly coordinate vectors (unit in every norm at once)
+            fam, R, optd = "near-diagonal", Rt, None
+            shape = [max(s_, Rt) for s_ in shape]
+            init = ["nvecs", "near-truth"][int(rng.integers(0, 2))]
         yield {"w": "als", "rep": rep, "shape": shape, "Rt": Rt, "R": R, "dimorder": dimorder, "optdims": optd, "init": init,
                "fixsigns": bool(rng.integers(0, 2)), "printitn": int(rng.choice([0, 1, 3])), "stoptol": float(rng.choice([0.0, 0.0, 1e-4, 1e-1])),
-               "kmax": 4 if tier == "quick" else 6, "gseed": int(rng.integers(0, 2 ** 31)), "cseed": int(seed) * 49979687 + next(cs)}
+               "kmax": 4 if tier == "quick" else 6, "gseed": int(rng.integers(0, 2 ** 31)), "cseed": int(seed) * 49979687 + next(cs),
+               "scale": scale, "fam": fam}
 
 
 def _quiet(f, *a, **k):
@@ -79,20 +88,29 @@ def run_case(case, ctx):
     shape = tuple(case["shape"])
     N, R, Rt = len(shape), case["R"], case["Rt"]
     rep = case["rep"]
-    Kt = ttb.ktensor([rng.standard_normal((s, Rt)) for s in shape], rng.random(Rt) + 0.5)
-    X = denote(Kt) + 0.1 * rng.standard_normal(shape)
+    scale = float(case.get("scale", 1.0))
+    fam = case.get("fam", "lowrank")
+    if fam == "near-diagonal":
+        lam = np.array([5.0, 3.0, 2.0, 1.5][:Rt])
+        Kt = ttb.ktensor([np.eye(s, Rt) for s in shape], lam * scale)
+        X = denote(Kt) + scale * float(rng.choice([1e-4, 1e-3, 3e-3])) * rng.standard_normal(shape)
+    else:
+        Kt = ttb.ktensor([rng.standard_normal((s, Rt)) for s in shape], (rng.random(Rt) + 0.5) * scale)
+        X = denote(Kt) + 0.1 * scale * rng.standard_normal(shape)
     if rep == "tensor":
         D = _recording(ttb.tensor)(X.copy())
         Xd = X
     elif rep == "sptensor":
-        Xs = X * (rng.random(shape) < 0.6)
+        Xs = X * (rng.random(shape) < (0.6 if fam == "lowrank" else 0.9))
+        if fam == "near-diagonal":
+            Xs = np.where(denote(Kt) != 0, X, Xs)
         subs = np.array(np.nonzero(Xs)).T
         subs = subs[rng.permutation(subs.shape[0])]
         D = _recording(ttb.sptensor)(subs, Xs[tuple(subs.T)][:, None], shape)
         Xd = Xs
     elif rep == "ttensor":
         csz = tuple(min(s, 3) for s in shape)
-        D = _recording(ttb.ttensor)(ttb.tensor(rng.standard_normal(csz)), [rng.standard_normal((s, c)) for s, c in zip(shape, csz)])
+        D = _recording(ttb.ttensor)(ttb.tensor(scale * rng.standard_normal(csz)), [rng.standard_normal((s, c)) for s, c in zip(shape, csz)])
         Xd = denote(D)
     else:
         D = _recording(ttb.sumtensor)([ttb.tensor(X.copy()), Kt.copy()])
@@ -111,14 +129,17 @@ def run_case(case, ctx):
                 owner[:R] = np.arange(R) if shape[n] >= R else owner[:R]
                 F[np.arange(shape[n]), owner] = rng.random(shape[n]) + 0.5
                 M0.factor_matrices[n] = F
-    ctx.feat(rep=rep, init=case["init"], N=N, R=R, all_modes=(optd is None), fixsigns=case["fixsigns"], printitn=case["printitn"], stoptol=case["stoptol"])
+    if case["init"] == "near-truth":
+        M0 = ttb.ktensor([np.eye(s, R) + 0.01 * rng.standard_normal((s, R)) for s in shape])
+    ctx.feat(rep=rep, init=case["init"], N=N, R=R, all_modes=(optd is None), fixsigns=case["fixsigns"], printitn=case["printitn"], stoptol=case["stoptol"],
+             fam=fam, scale=("1" if scale == 1.0 else "tiny" if scale < 1e-6 else "small" if scale < 1 else "large"))
     normX2 = float(np.sum(Xd ** 2))
     data_digest = state_digest(D)
     prevR2 = None
     stop0 = case["stoptol"] == 0.0
     do = [int(d) for d in dimorder if (optd is None or d in optd)]
     for mi in range(1, case["kmax"] + 1):
-        given = case["init"] in ("given", "indicator")
+        given = case["init"] in ("given", "indicator", "near-truth")
         init_arg = M0.copy() if given else case["init"]
         guess_digest = state_digest(init_arg) if given else None
         np.random.seed(case["gseed"])
@@ -163,8 +184,8 @@ def run_case(case, ctx):
         prevR2 = R2
         nn = [np.linalg.norm(f, axis=0) for f in M.factor_matrices]
         # data unfoldings have rank >= requested rank, so no component may vanish: every column has unit norm
-        ctx.check(all(np.allclose(n_, 1, atol=1e-10) for n_ in nn), "cp_als", "NORMAL-FORM",
-                  lambda: f"factor columns are not unit 2-norm: {[np.round(n_, 6).tolist() for n_ in nn]}")
+        ctx.check(all(bool(np.all(np.abs(n_ - 1.0) <= 1e-10)) for n_ in nn), "cp_als", "NORMAL-FORM",
+                  lambda: f"factor columns are not unit 2-norm: {[n_.tolist() for n_ in nn]}")
         ctx.check(not (M.weights < 0).any() and not (np.diff(M.weights) > 1e-12).any(), "cp_als", "NORMAL-FORM", f"weights not non-negative descending: {M.weights.tolist()}")
         ctx.check(out["iters"] + 1 <= mi, "cp_als", "ITERS", f"iters {out['iters']} exceeds maxiters {mi}")
         if stop0:
